@@ -25,15 +25,12 @@ ASSUMPTIONS = ["Rust semantics of Vec/usize/isize as modelled (checked indexing,
                "`B += c` / `B -= c` are read as acting on the stored in-band entries (a banded matrix cannot hold the others)",
                "resize, indices with row >= n and division by zero are outside the claim (tied to the model, not judged by the oracle)",
                "float backward error of solve is demanded (1e-11 normwise) only when cond_inf(D) <= 1e8; the theorems are about the model"]
-UNPROVED = ["band_det_spec (determinant = determinant of the dense twin): tied exhaustively in (n,m1,m2) and judged by the oracle against an exact "
-            "determinant, not proved (the pivots are proved nonzero on nonsingular input, their product is not related to a determinant function)",
-            "padding independence of solve/det as an equation between two runs: proved for the product; for solve it follows from soundness only "
-            "up to the solution set (both answers solve the same dense system), for det it is tied and searched",
+UNPROVED = ["band_det = \\det of the dense twin is proved over every mathcomp fieldType and at Qc (band_det_is_det, band_det_spec); for an arbitrary FieldLaws arithmetic (R, C) only the abstract-determinant form (Proofs/BandedDet2.v band_det_abs) is available",
             "normwise backward error of the f64/Complex instantiation (tie + search); the theorems are over an abstract field",
             "operand non-mutation / owned = borrowed forms are run-time observations of the executor"]
 
 MANIFEST = dict(
-    text=("Theorems, for all n, m1, m2 and all entry values, about the Gallina model of src/banded.rs (compact n x (m1+m2+1) storage on the flat "
+    text=("[round two: band_det_is_det / band_det_spec (Banded::det = \\det of the dense twin, singular included), band_solve_spec (solve = D^-1 b or Panic DivZero iff \\det = 0), padding independence of det/solve/product for ANY arithmetic, band_wide_panics (m1 > n), band_mul_backward_error in the standard rounding model.] Theorems, for all n, m1, m2 and all entry values, about the Gallina model of src/banded.rs (compact n x (m1+m2+1) storage on the flat "
           "dense-matrix model, decompose statement by statement): the in-band test and slot map (range, injectivity, distinct offsets); element access = "
           "dense twin / refused outside the band; &B*&v = (dense twin).v and independent of every padding slot; every operator and compound assignment "
           "commutes with the dense twin; band_solve is sound over any field (whatever it returns solves the dense twin's system, also across matrices "
